@@ -160,6 +160,7 @@ func runC10x(c c10Case) *vstat.Failure {
 	// stamps[i][key]: the time of the last update the harness made (API-built stores)
 	stamps := map[int]map[string]int64{}
 	vals := map[int]map[string]int64{}
+	marks := map[int]map[string]time.Duration{} // the expiry mark in force (API-built stores)
 	setDatum := func(typ metrics.Type, d datum.Datum, v int64, ts time.Time) {
 		switch typ {
 		case metrics.Int:
@@ -178,7 +179,7 @@ func runC10x(c c10Case) *vstat.Failure {
 		typ := []metrics.Type{metrics.Int, metrics.Float, metrics.String}[cm.Typ%3]
 		m := metrics.NewMetric(fmt.Sprintf("m%d", i), "prog", metrics.Gauge, typ, "k")
 		m.Limit = cm.Limit
-		stamps[i], vals[i] = map[string]int64{}, map[string]int64{}
+		stamps[i], vals[i], marks[i] = map[string]int64{}, map[string]int64{}, map[string]time.Duration{}
 		for j, cd := range cm.Data {
 			d, err := m.GetDatum(fmt.Sprintf("l%d", j))
 			if err != nil {
@@ -204,6 +205,7 @@ func runC10x(c c10Case) *vstat.Failure {
 				if err := m.ExpireDatum(time.Duration(cd.ExpNs), fmt.Sprintf("l%d", j)); err != nil {
 					return vstat.Failf("bad-case", "%v", err)
 				}
+				marks[i][c10Key(j)] = time.Duration(cd.ExpNs)
 			}
 		}
 		if err := s.Add(m); err != nil {
@@ -222,6 +224,10 @@ func runC10x(c c10Case) *vstat.Failure {
 					continue
 				}
 				m := ms[u.M]
+				if m.FindLabelValueOrNil([]string{fmt.Sprintf("l%d", u.J)}) == nil {
+					// removed by an earlier pass: created again, without a mark
+					delete(marks[u.M], c10Key(u.J))
+				}
 				d, err := m.GetDatum(fmt.Sprintf("l%d", u.J))
 				if err != nil {
 					return vstat.Failf("bad-case", "%v", err)
@@ -245,6 +251,12 @@ func runC10x(c c10Case) *vstat.Failure {
 				}
 			}
 			if pass > 0 {
+				// an update does not touch the mark
+				for _, b := range before[i] {
+					if want := marks[i][b.key]; b.expiry != want {
+						return vstat.Failf("expiry-mark", "pass %d: metric %d datum %s carries expiry %v, the mark in force is %v (it was updated, not re-marked)", pass, i, b.key, b.expiry, want)
+					}
+				}
 				continue
 			}
 			// the mark in force is the last one set
